@@ -132,6 +132,15 @@ func (s *Server) Serve(l net.Listener) error {
 
 func (s *Server) handleConn(c *Conn) error {
 	s.locker.Lock()
+	select {
+	case <-s.done:
+		// Close or Shutdown has begun and will not see this connection
+		// in s.conns: end it here instead of serving it.
+		s.locker.Unlock()
+		c.Close()
+		return nil
+	default:
+	}
 	s.conns[c] = struct{}{}
 	s.locker.Unlock()
 
